@@ -45,6 +45,7 @@ type Params struct {
 	ApplyDelayMs     int    `json:"apply_delay_ms,omitempty"`
 	PersistDelayMs   int    `json:"persist_delay_ms,omitempty"`
 	RestoreDelayMs   int    `json:"restore_delay_ms,omitempty"`
+	StoreDelayMs     int    `json:"store_delay_ms,omitempty"` // every StoreLogs takes this long (slow disk)
 	DelayEvery       uint64 `json:"delay_every,omitempty"`
 }
 
@@ -150,6 +151,7 @@ func NewCluster(w *World, seed int64, p Params) *Cluster {
 	for i := 0; i < p.N(); i++ {
 		name := fmt.Sprintf("s%d", i)
 		nd := &Node{c: c, idx: i, name: name, disk: NewDisk(w, name, p.Flavor)}
+		nd.disk.StoreDelay = time.Duration(p.StoreDelayMs) * time.Millisecond
 		nd.disk.onCrash = func(reason string) { c.afterCrash(nd) }
 		nd.down = true
 		c.Nodes = append(c.Nodes, nd)
@@ -431,6 +433,9 @@ func (c *Cluster) Crash(nd *Node) bool {
 
 // ShutdownNode performs a clean Shutdown() of the running incarnation (the
 // durable image stays; the server can be restarted).
+// ShutdownWatchdog: virtual time after which Shutdown().Error() counts as hung.
+const ShutdownWatchdog = 60 * time.Second
+
 func (c *Cluster) ShutdownNode(nd *Node) *Inst {
 	nd.mu.Lock()
 	in := nd.inst
@@ -445,7 +450,20 @@ func (c *Cluster) ShutdownNode(nd *Node) *Inst {
 	defer func() { nd.mu.Lock(); nd.stopping = false; nd.mu.Unlock() }()
 	nd.disk.LogIfLive(in.ep, Ev{K: "Lshutdown.begin"})
 	in.shut.Store(true)
-	in.r.Shutdown().Error()
+	sd := make(chan struct{})
+	go func() { in.r.Shutdown().Error(); close(sd) }()
+	select {
+	case <-sd:
+	case <-time.After(ShutdownWatchdog):
+		// C17: Shutdown never strands its caller. The incarnation is written off (its goroutines
+		// stay behind) so that the execution can go on and end.
+		nd.disk.LogIfLive(in.ep, Ev{K: "Lshutdown.hang"})
+		nd.disk.Crash("shutdown-hang")
+		c.zmu.Lock()
+		c.zombies = append(c.zombies, in)
+		c.zmu.Unlock()
+		return in
+	}
 	// a cleanly shut down incarnation no longer writes; bump the epoch so that
 	// late events of it are not attributed to a live server
 	nd.disk.LogIfLive(in.ep, Ev{K: "Lshutdown.end"})
